@@ -245,7 +245,33 @@ fn decode(t: &mut Tape) -> Case {
     }
     let mut blob = None;
     if klass == 4 {
-        let (what, bytes) = BLOBS[t.below(BLOBS.len())];
+        let bi = t.below(BLOBS.len());
+        let (what, bytes) = BLOBS[bi];
+        // self-modifying arm: one byte of the code is overwritten by a Store right before a Branch
+        // to it; the function lifted on demand must be the one the CURRENT bytes spell
+        if t.chance(1, 3) {
+            let curated: &[(usize, u8)] = match bi {
+                1 => &[(0, 0x29), (1, 0xc9)],
+                2 => &[(3, 0x07), (3, 0xff)],
+                3 => &[(4, 0x29), (2, 0xf0)],
+                4 => &[(4, 0x00), (7, 0xc8)],
+                5 => &[(4, 0xf0)],
+                6 => &[(1, 0xe7)],
+                _ => &[],
+            };
+            let (off, val) = if !curated.is_empty() && t.chance(2, 3) { curated[t.below(curated.len())] } else { (t.below(bytes.len()), t.raw() as u8) };
+            let st = il::Operation::Store { index: konst(BLOB_ADDR + off as u64, addr_bits), src: konst(val as u64, 8) };
+            'outer: for f in fns.iter_mut() {
+                for ops in f.blocks.iter_mut() {
+                    let pos = ops.iter().position(|o| matches!(&o.op, il::Operation::Branch { target: il::Expression::Constant(c) } if c.value_u64() == Some(BLOB_ADDR)));
+                    if let Some(pos) = pos {
+                        let address = ops[pos].address.map(|a| a.wrapping_sub(2));
+                        ops.insert(pos, OpSpec { op: st, address });
+                        break 'outer;
+                    }
+                }
+            }
+        }
         for (i, b) in bytes.iter().enumerate() {
             state.mem.bytes.insert(BLOB_ADDR + i as u64, *b);
         }
@@ -1088,23 +1114,57 @@ fn lockstep(case: &Case, program: il::Program, obs: &mut Obs) -> Result<(Vec<u64
                     continue;
                 }
                 let in_blob = case.blob.as_ref().map(|bl| target >= bl.addr && target < bl.addr + bl.bytes.len() as u64).unwrap_or(false);
-                if in_blob && (blob_page_written || target != BLOB_ADDR) {
-                    obs.exclude(if blob_page_written { "lift-after-store-into-code-page" } else { "branch-into-middle-of-blob" });
+                if in_blob && target != BLOB_ADDR {
+                    obs.exclude("branch-into-middle-of-blob");
                     stats.end = "excluded".into();
                     driver = before;
                     break;
                 }
                 if in_blob {
-                    // on-demand lifting arm
+                    // on-demand lifting arm.  What must be lifted is what the CURRENT bytes of the
+                    // reference memory spell (the lifter itself is taken as given): lift them here,
+                    // independently of the executor's memory plumbing.
                     obs.class("branch-lifts-function");
-                    let d = match res {
-                        Ok(d) => d,
-                        Err(e) => fv::fail!(
+                    if blob_page_written {
+                        obs.class("branch-lifts-function-after-store-into-code-page");
+                    }
+                    let bl = case.blob.as_ref().unwrap();
+                    let current: Vec<u8> = (0..bl.bytes.len() as u64).map(|i| rp.state.mem.bytes.get(&(bl.addr + i)).copied().unwrap_or(0)).collect();
+                    let mut image = backing::Memory::new(Endian::Little);
+                    image.set_memory(bl.addr, current.clone(), MemoryPermissions::READ | MemoryPermissions::EXECUTE);
+                    let want_fn = guard(|| Amd64::new().translator().translate_function(&image, target));
+                    let d = match (res, &want_fn) {
+                        (Ok(d), Ok(Ok(_))) => d,
+                        (Err(e), Ok(Ok(_))) => fv::fail!(
                             format!("C07|branch|lift|error|{}", err_kind(&e)),
-                            "step {} at {}: branch to 0x{:x}, executable memory holding `{}`; Driver::step returned Err: {}",
-                            step, pre_loc, target, case.blob.as_ref().unwrap().what, e
+                            "step {} at {}: branch to 0x{:x}, executable memory holding `{}` (current bytes {:02x?}); Driver::step returned Err: {}",
+                            step, pre_loc, target, bl.what, current, e
                         ),
+                        (Ok(_), _) => fv::fail!(
+                            "C07|branch|lift|lifted-what-the-bytes-do-not-spell",
+                            "step {} at {}: branch to 0x{:x}: the current bytes {:02x?} do not lift, but Driver::step lifted a function there (stale bytes?)",
+                            step, pre_loc, target, current
+                        ),
+                        (Err(e), _) => {
+                            // the current bytes are not liftable code: the branch cannot be performed
+                            obs.class("branch-to-unliftable-bytes");
+                            trace.push(engine::fingerprint(&format!("error {}", e)));
+                            stats.end = "branch-nowhere".into();
+                            final_sweep(&before, &rp, step)?;
+                            return Ok((trace, stats));
+                        }
                     };
+                    if let Ok(Ok(want)) = &want_fn {
+                        let got = d.program().function(rp.views.len()).map(|f| format!("{}", f.control_flow_graph()));
+                        let want_text = format!("{}", want.control_flow_graph());
+                        if got.as_deref() != Some(want_text.as_str()) {
+                            fv::fail!(
+                                "C07|branch|lift|function-differs-from-current-bytes",
+                                "step {} at {}: branch to 0x{:x}; the bytes there are now {:02x?} (originally `{}`), which lift to\n{}\nbut the function the executor lifted is\n{}",
+                                step, pre_loc, target, current, bl.what, want_text, got.unwrap_or_else(|| "(none)".into())
+                            );
+                        }
+                    }
                     let n = rp.views.len();
                     let f = match d.program().function(n) {
                         Some(f) if d.program().functions().len() == n + 1 => f,
@@ -1296,7 +1356,7 @@ fn main() -> std::process::ExitCode {
         "loads/stores whose byte range wraps past 2^64 are excluded".into(),
         "when two guards hold (non-exclusive guards) only membership of the chosen edge in the enabled set is checked; when one guard holds and another cannot be evaluated, taking the enabled edge and reporting the fault are both accepted".into(),
         "a branch to an address with neither an IL instruction nor executable bytes must be an error of any kind".into(),
-        "the amd64 code for the lifting arm sits in a READ|EXECUTE backing region whose page is never stored to; the lifted IL is taken as given (its meaning is C01's)".into(),
+        "the amd64 code for the lifting arm sits in a READ|EXECUTE backing region; in a third of those cases a Store overwrites one code byte before the Branch; the function the executor lifts on demand must equal what falcon's lifter makes of the CURRENT bytes of the reference memory (the lifter itself is taken as given, its meaning is C01's)".into(),
     ];
     spec.floors = vec![
         ("klass-plain", 0.20),
@@ -1323,6 +1383,7 @@ fn main() -> std::process::ExitCode {
         ("branch-other-function", 0.025),
         ("branch-to-unmapped", 0.02),
         ("branch-lifts-function", 0.012),
+        ("branch-lifts-function-after-store-into-code-page", 0.003),
         ("step-inside-lifted-function", 0.012),
         ("branch-out-of-lifted-function", 0.006),
         ("end-max-steps", 0.25),
